@@ -6,7 +6,7 @@ TB = ["modelled, not verified: both directories as maps path -> bytes of regular
       "premise of the theorems, not of the tie: Fresh = for every both-changed path of the plan with loser l and conflict name q: each side holds at q nothing or exactly l, and if exactly one side holds it the record for q is not l's digest (so q absent, l on both sides = the repeated conflict, and l on one side with no/another record = a crash leftover are inside); and distinct both-changed paths have distinct conflict names (proved automatic for the real name format: C06_conflict_name_format_injective). Outside Fresh nothing is proved; it is the documented known class F5 and both parts are shown real by closed witness theorems: (i) q live with another content - an edited conflict copy is overwritten on both sides (C02_name_clash_loses_version); (ii) l at q on exactly one side and recorded - the planned delete removes the re-created copy and the trees end up different (C06_name_clash_one_sided_diverges). The generated histories never write or delete a conflict copy, so the tie stays inside Fresh",
       "the real `copia bisync` binary is run with HOME redirected; the harness's tree snapshotter and its reading of the archive JSON (same version/pair test as Archive::load) are trusted glue"]
 
-RULE = ("histories over 4 paths in 2 directories and a pool of 5 contents (empty, three short, one 40 B / 70 kB): arbitrary initial trees, then 3-12 operations {write(side,path,content) 30 %, delete(side,path) 20 %, bisync 40 %, archive fault 10 % (9 kinds, recorded in the case line as F0..F8: removed, zero length, truncated at a random point, garbage, JSON of the wrong shape, format_version 2, foreign pair hash, only .bak left, the NAME of one root re-pointed to another directory holding the same files - both roots are named through symbolic links)}; one write in three takes the opposite side's exact mtime (operation MA/MB: cp -p / touch -r), one run in twelve is stopped by an injected I/O fault (operation X<k>: the k-th mutating call fails with EIO; such histories are checked by the oracles only); plus directed classes (delete on both sides then recreate, the same conflict repeated with the same loser, an edited conflict copy, fault before a run, a same-size edit carrying the peer's mtime, an I/O fault then plain re-runs); all other mtimes randomised independently of contents. After EVERY operation both trees and the archive are compared with the extracted model's state, and for every run the exit class and the `--dry-run` plan. Oracles on the implementation's own snapshots, per run: C02 - every version present before is on both sides afterwards unless it is what both sides held at the end of the previous completed run and the other side changed/deleted it; C06 - trees equal, archive = tree entry for entry, an immediate second run plans 0 actions, every 4th history re-run with the directories swapped; C07 - after a fault: SAFE no-base banner, no Delete* planned, no path removed; C15 - the dry run touches nothing. distinct_nontrivial = distinct histories with at least 2 runs.")
+RULE = ("histories over 4 paths in 2 directories and a pool of 5 contents (empty, three short, one 40 B / 70 kB): arbitrary initial trees, then 3-12 operations {write(side,path,content) 30 %, delete(side,path) 20 %, bisync 40 %, archive fault 10 % (9 kinds, recorded in the case line as F0..F8: removed, zero length, truncated at a random point, garbage, JSON of the wrong shape, format_version 2, foreign pair hash, only .bak left, the NAME of one root re-pointed to another directory holding the same files - both roots are named through symbolic links)}; one write in three takes the opposite side's exact mtime (operation MA/MB: cp -p / touch -r), one run in twelve is stopped by an injected I/O fault (operation X<k>: the k-th mutating call fails with EIO; such histories are checked by the oracles only); plus directed classes (delete on both sides then recreate, the same conflict repeated with the same loser, an edited conflict copy, fault before a run, a same-size edit carrying the peer's mtime, an I/O fault then plain re-runs, a name that is a directory on one side and becomes a file on the other - checked by the oracles only, the tool refuses such a run); all other mtimes randomised independently of contents. After EVERY operation both trees and the archive are compared with the extracted model's state, and for every run the exit class and the `--dry-run` plan. Oracles on the implementation's own snapshots, per run: C02 - every version present before is on both sides afterwards unless it is what both sides held at the end of the previous completed run and the other side changed/deleted it; C06 - trees equal, archive = tree entry for entry, an immediate second run plans 0 actions, every 4th history re-run with the directories swapped; C07 - after a fault: SAFE no-base banner, no Delete* planned, no path removed; C15 - the dry run touches nothing. distinct_nontrivial = distinct histories with at least 2 runs.")
 
 
 def run(prop, tier, seed, replay, only=" C02 ", tb=TB):
